@@ -224,8 +224,21 @@ def _make_original(case, scratch):
     if o.get("announce"):
         kw["announce"] = o["announce"][0]
         kw["announce_list"] = [o["announce"]]
+    if case.get("foreign_forms"):
+        # spellings other clients use for the same fields: one seed as a plain string (BEP 19), an empty tier in the
+        # tracker list, private = 0
+        ff = case["foreign_forms"]
+        if "url-list-str" in ff and kw.get("url_list"):
+            kw["url_list"] = kw["url_list"][0]
+        if "httpseeds-str" in ff and kw.get("httpseeds"):
+            kw["httpseeds"] = kw["httpseeds"][0]
+        if "empty-tier" in ff and kw.get("announce_list"):
+            kw["announce_list"] = kw["announce_list"] + [[]]
+        if "private-0" in ff and not kw.get("private"):
+            kw.setdefault("extra_info", {})["private"] = 0
     if case.get("extra"):
-        kw["extra_info"] = {"x-custom": {"b": 2, "a": [1, 2]}, "zz": "end", "0first": 1}
+        kw.setdefault("extra_info", {}).update({"x-custom": {"b": 2, "a": [1, 2]}, "zz": "end", "0first": 1})
+        kw["extra_info"] = kw["extra_info"]
         kw["extra_top"] = {"created by": "ref", "creation date": 1, "nodes": [["h", 1]], "encoding": "UTF-8",
                            "0": "zero", "zzz": {"y": 1, "x": 2}}
     if tree["single"]:
@@ -252,7 +265,9 @@ def _gen_case(rng, tier, origins):
     return {"tree": tree, "pl_exp": exp, "version": version, "origin": origin,
             "route": rng.choice(ROUTES[version]), "opts": gen_opts(rng), "extra": rng.random() < 0.5,
             "history": hist, "enum_seed": rng.randrange(1000),
-            "preexisting_output": rng.choice([None, None, "long", "long", "short"])}
+            "preexisting_output": rng.choice([None, None, "long", "long", "short"]),
+            "foreign_forms": [f for f in ("url-list-str", "httpseeds-str", "empty-tier", "private-0") if rng.random() < 0.5]
+            if origin == "ref" and rng.random() < 0.35 else None}
 
 
 def _reach():
@@ -286,6 +301,7 @@ def _killed_edit(mpath):
 
 # ---------------------------------------------------------------------- C06
 class C06:
+    rule_extra = ('Later additions: 12 % of the histories contain an edit attempt that is killed right before the new file is moved into place, followed by an edit that makes the file shorter; the output path may already hold a longer or shorter file.')
     id = "C06"
     quick, thorough = 1500, 30000
     timeout = 120
